@@ -126,9 +126,12 @@ def merge(times, wire, rt_offset=None):
 
 # ---------------------------------------------------------------- running a program
 class Run:
-    def __init__(self, prog, mode):
+    def __init__(self, prog, mode, share=False):
         self.prog = prog
         self.mode = mode
+        self.share = share          # send the SAME Python list objects for equal element lists
+        self.cache = {}
+        self.mutations = []
         self.events = []
         self.schedule = []      # rt: ['top', now] | ['wake', rid, now]
         self.nrout = 0
@@ -173,12 +176,26 @@ class Run:
             wire = parse_packet(self.last_dgram)
             return merge(None, wire, SystemClock._elapsed_osc_offset)
 
+    def elems_obj(self, es):
+        if not self.share:
+            return self.build_elems(es)
+        key = json.dumps(es)
+        if key not in self.cache:
+            self.cache[key] = self.build_elems(es)
+        return self.cache[key]
+
     def do_send(self, org, lat, es):
         T = main.current_tt._m_seconds if org is not None else None
         self.last_dgram = None
         try:
-            self.addr.send_bundle(lat_of(lat), *self.build_elems(es))
+            obj = self.elems_obj(es)
+            self.addr.send_bundle(lat_of(lat), *obj)
             ok = True
+            if self.share:
+                fresh = self.build_elems(es)
+                if obj != fresh:
+                    self.mutations.append({'sent': es, 'callers_list_after_send': json.loads(json.dumps(obj)),
+                                           'at_logical_time': fr(main.current_tt._m_seconds)})
         except Exception:       # ValueError (_check_subtime) or OscBundleBuildError (negative timetag)
             ok = False
         if org is None:
@@ -312,9 +329,9 @@ class Run:
                     self.schedule.append(['top', fr(main.main_tt._m_seconds)])
 
 
-def run_nrt(prog):
+def run_nrt(prog, share=False):
     main.reset()
-    run = Run(prog, 'nrt')
+    run = Run(prog, 'nrt', share)
     run.top()
     score = main.process(num(prog['tail']))
     lst = score.list
@@ -331,7 +348,7 @@ def run_nrt(prog):
         for b, ch in zip(lst, chunks):
             sc.append(merge(b, parse_packet(ch)))
     return {'events': run.events, 'score': sc, 'raw_ok': ok_raw, 'elapsed': fr(main.elapsed_time()),
-            'errors': run.errors, 'nrout': run.nrout, 'nended': run.nended,
+            'errors': run.errors, 'nrout': run.nrout, 'nended': run.nended, 'mutations': run.mutations,
             'raw_len': len(raw), 'chunk_lens': [len(c) for c in chunks]}
 
 
@@ -409,7 +426,7 @@ def main_():
         rt_setup(payload.get('seed', 1))
     for prog in payload['cases']:
         try:
-            out.append(run_nrt(prog) if MODE == 'nrt' else run_rt(prog))
+            out.append(run_nrt(prog, payload.get('share_lists', False)) if MODE == 'nrt' else run_rt(prog))
         except Exception as e:
             import traceback
             out.append({'fatal': '%r\n%s' % (e, traceback.format_exc())})
